@@ -58,7 +58,19 @@ func isLabelEqual(v ssa.Value) (*ssa.Call, int) {
 // errorExit: every path from b reaches, through at most a few straight-line
 // blocks, a return whose error result is not the nil constant.
 func errorExit(b *ssa.BasicBlock) bool {
+	// stores met on the straight-line way to the return: a named error result is only as good as what was
+	// stored into it on this path
+	stored := map[ssa.Value]ssa.Value{}
 	for hops := 0; hops < 4 && b != nil; hops++ {
+		for _, ins := range b.Instrs {
+			if st, ok := ins.(*ssa.Store); ok {
+				// `*cell = *cell` (the result spill around rundefers) sets nothing
+				if ld, isLd := st.Val.(*ssa.UnOp); isLd && ld.Op == token.MUL && ld.X == st.Addr {
+					continue
+				}
+				stored[st.Addr] = st.Val
+			}
+		}
 		switch t := b.Instrs[len(b.Instrs)-1].(type) {
 		case *ssa.Return:
 			if len(load.Results(t)) == 0 {
@@ -70,6 +82,18 @@ func errorExit(b *ssa.BasicBlock) bool {
 			}
 			if c, ok := last.(*ssa.Const); ok && c.IsNil() {
 				return false
+			}
+			// `return result, err` with err a named result (a cell): it must have been given an error on this path
+			if ld, ok := last.(*ssa.UnOp); ok && ld.Op == token.MUL {
+				if al, ok := ld.X.(*ssa.Alloc); ok {
+					v, set := stored[al]
+					if !set {
+						return false
+					}
+					if c, ok := v.(*ssa.Const); ok && c.IsNil() {
+						return false
+					}
+				}
 			}
 			return true
 		case *ssa.Jump:
